@@ -1,13 +1,15 @@
 import gfapy
 import re
 
-def decode(string):
+def unsafe_decode(string):
   try:
     return float(string)
   except:
     raise gfapy.FormatError
 
-unsafe_decode = decode
+def decode(string):
+  validate_encoded(string)
+  return float(string)
 
 def validate_decoded(integer):
   pass
